@@ -9,6 +9,10 @@ for key in sorted(res):
     e = res[key]
     if not e.get("applied"):
         rows.append(f"| {key} | patch no longer applies | – | – |"); continue
+    mf = os.path.join(V, "seeded", key, "meta.json")
+    sup = json.load(open(mf)).get("superseded") if os.path.exists(mf) else None
+    if sup and not e.get("detected"):
+        rows.append(f"| {key} | {(e.get('summary') or '')[:120]} | no longer breaks the property: {sup[:160]} | – |"); continue
     tot += 1; det += 1 if e.get("detected") else 0
     summ = (e.get("summary") or "").replace("|", "/")[:170]
     chk = "; ".join(f"{q}: {'VIOLATION' if c['exit'] == 1 else 'passed' if c['exit'] == 0 else 'exit ' + str(c['exit'])}" for q, c in e["checks"].items())
